@@ -495,3 +495,70 @@ theorem timer_thread_locks :
     Gen.Locks.timerAcquires.all (fun l => !Gen.Locks.heldWhileWaitingForReader.contains l) = true := by decide
 
 end Amqp.C12
+
+/-! ## A restart while a check is running (`Hb.stepMid`)
+
+`Connection.close()` / `open()` - `Heartbeat.stop()` / `start()` - can be called by the application
+while the timer thread is inside `_check_for_life_signs`, past its `_running` test.  That check then
+finishes against the counters of the new life. -/
+namespace Amqp.C12
+open Amqp Amqp.Hb Amqp.Gen.Heartbeat
+
+/-- `start` leaves a threshold from which one miss is not a verdict -/
+theorem one_miss_after_start_is_no_verdict (th : Int) : deadTest (thresholdMiss (startThreshold th)) = false := by
+  simp [deadTest, thresholdMiss, startThreshold]
+
+/-- **A check that was already running when the checker was started again cannot declare the new
+    life dead**: whatever the earlier life left in the counters (any state `s`, no invariant
+    needed), after a `start` that fell between its write test and its read test the evaluation
+    appends nothing to the new error list, raises nothing and leaves the checker running. -/
+theorem stale_check_cannot_kill_new_life (s s1 s2 : St) (l : Bool) (hpc : s.pc = .sent)
+    (hen : startDisabled s.interval = false)
+    (h1 : stepMid s (.start l) = some s1) (h2 : step s1 .eval = some s2) :
+    s2.deads = s1.deads ∧ s2.raises = s1.raises ∧ s2.running = true ∧ s2.exc = s1.exc := by
+  simp only [stepMid, hpc, true_or, if_true, step, hen, Bool.false_eq_true, if_false, Option.map_some,
+    Option.some.injEq] at h1
+  subst h1
+  simp only [step, startNewTimer, if_true] at h2
+  have hth := one_miss_after_start_is_no_verdict s.threshold
+  cases hi : s.interval with
+  | none => simp [startDisabled, hi] at hen
+  | some v =>
+    simp only [hi, hth, Bool.false_eq_true, if_false] at h2
+    (repeat' split at h2) <;> (injection h2 with h2; subst h2; simp_all [startNewTimer])
+
+/-- a `stop` that falls inside a running check: the rest of that check sends no heartbeat and arms
+    no timer -/
+theorem stop_mid_check_is_final (s s1 s2 : St) (as : List Act) (h1 : stepMid s .stop = some s1)
+    (hphase : ∀ a ∈ as, a = .eval ∨ a = .clear ∨ a = .rearm) (h2 : run s1 as = some s2) :
+    s2.hbs = s1.hbs ∧ s2.timers = s1.timers ∧ s2.running = false := by
+  have hr : s1.running = false := by
+    simp only [stepMid] at h1
+    split at h1
+    · simp only [step, if_true, Option.map_some, Option.some.injEq] at h1; subst h1; rfl
+    · cases h1
+  clear h1
+  induction as generalizing s1 with
+  | nil => simp only [run, Option.some.injEq] at h2; subst h2; exact ⟨rfl, rfl, hr⟩
+  | cons a as ih =>
+    simp only [run] at h2
+    split at h2
+    · rename_i s' hs'
+      have hstep : s'.hbs = s1.hbs ∧ s'.timers = s1.timers ∧ s'.running = false := by
+        rcases hphase a List.mem_cons_self with h | h | h <;> subst h
+        · simp only [step] at hs'
+          (repeat' split at hs') <;> cases hs' <;> simp_all
+        · simp only [step] at hs'
+          (repeat' split at hs') <;> cases hs' <;> simp_all
+        · simp only [step, startNewTimer, hr] at hs'
+          (repeat' split at hs') <;> cases hs' <;> simp_all
+      have := ih s' (fun b hb => hphase b (List.mem_cons_of_mem _ hb)) h2 hstep.2.2
+      exact ⟨by rw [this.1, hstep.1], by rw [this.2.1, hstep.2.1], this.2.2⟩
+    · cases h2
+
+/-- non-vacuity: a life with one miss counted, a check under way, a restart, and the evaluation -/
+example : ∃ s s1 s2, s.pc = .sent ∧ s.threshold = 1 ∧ startDisabled s.interval = false ∧
+    stepMid s (.start true) = some s1 ∧ step s1 .eval = some s2 ∧ s2.threshold = 1 ∧ s2.deads = 0 :=
+  ⟨{ (init (some 4)) with pc := .sent, threshold := 1, running := true }, _, _, rfl, rfl, by decide, rfl, rfl, by decide, by decide⟩
+
+end Amqp.C12
